@@ -1091,6 +1091,7 @@ func runC18(c *Ctx) {
 	ruleAutoTargetsKept(c, p, "C18.targets-kept")
 	ruleElemFromEnd(c, p, "C18.elem-last")
 	ruleNoPrepareInDecode(c, p, "C18.no-prepare")
+	ruleNormalizeKeepsBlanks(c, p, "C18.normalize")
 	ruleAdopt(c, p, "C18.adopt")
 	ruleInferTables(c, p, "C18")
 	c.R.Assumptions = append(c.R.Assumptions,
